@@ -61,10 +61,10 @@ def conformant_item(tag, shape, section):
     return m, u, v, d
 
 
-def base_las(ns):
+def base_las(ns, no_nan=False):
     las = ns.las.LASFile()
     las.append_curve("DEPT", np.array([1.0, 2.0]), unit="M", descr="depth")
-    las.append_curve("GR", np.array([10.5, np.nan]), unit="API", descr="gamma")
+    las.append_curve("GR", np.array([10.5, 11.5 if no_nan else np.nan]), unit="API", descr="gamma")
     las.well["COMP"].value = "ACME OIL"
     las.other = "some free text"
     return las
